@@ -37,6 +37,9 @@ def one(d):
     finally:
         subprocess.call(["git", "-C", "/repo", "worktree", "remove", "--force", wt])
         shutil.rmtree(ev, ignore_errors=True)
+    if "note" in meta and "caught_by_at_first_run" not in meta:
+        # kept while the checks were being edited: this re-evaluation is the first clean run
+        meta["caught_by_at_first_run"], meta["fail_closed_at_first_run"] = list(caught), list(closed)
     meta.setdefault("caught_by_at_first_run", meta.get("caught_by", []))
     meta.setdefault("fail_closed_at_first_run", meta.get("fail_closed_in", []))
     meta["caught_by"], meta["fail_closed_in"], meta["reports"] = caught, closed, details
